@@ -113,7 +113,7 @@ CHECKS = {
         "assumptions": COMMON_ASSUMPTIONS,
     },
     "C03": {
-        "cmd": "c03", "flavours": ["checked"], "level": "exploration", "engine_name": "vh-sched", "design_ref": "DESIGN.md §4 C03",
+        "cmd": "c03", "flavours": ["checked", "release"], "level": "exploration", "engine_name": "vh-sched", "design_ref": "DESIGN.md §4 C03",
         "budget": {"quick": 30, "thorough": 600},
         "addons": ["tsan_par", "miri_par"],
         "technique": "runtime monitoring under a controlled scheduler: the real ParallelSolver is driven through replayable schedules of its critical sections (bounded-deviation DFS, PCT, random) and judged by the exhaustive optimum; plus delay-injected free-running stress; TSan and Miri on the same workload (thorough)",
@@ -123,7 +123,7 @@ CHECKS = {
         "assumptions": COMMON_ASSUMPTIONS + ["between two scheduling decisions exactly one worker makes progress; woken waiters only re-acquire the mutex and return Starvation before their next yield"],
     },
     "C04": {
-        "cmd": "c04", "flavours": ["checked"], "level": "exploration", "engine_name": "vh-sched", "design_ref": "DESIGN.md §4 C04",
+        "cmd": "c04", "flavours": ["checked", "release"], "level": "exploration", "engine_name": "vh-sched", "design_ref": "DESIGN.md §4 C04",
         "budget": {"quick": 30, "thorough": 600},
         "addons": ["tsan_par"],
         "technique": "runtime monitoring under a controlled scheduler: exact deadlock state (quiescent, nobody enabled, somebody parked), worker-crash event, livelock witness on the fringe; /proc quiescence watchdog for free-running threads",
